@@ -161,6 +161,7 @@ def run(res, f, tier):
     samples = []
     guarded = 0
     cycle_keys = []
+    local_roots = set(p_.split("::")[0] for p_, a_ in f.adts.items() if a_.get("local"))
     radj_all = {}
     for a_, b_, k_ in m["edges"]:
         radj_all.setdefault(b_, []).append(a_)
@@ -174,10 +175,11 @@ def run(res, f, tier):
                 # a trait method is named after (type, trait, method), not after the module its impl block sits in
                 b_ = f.bodies.get(pth)
                 im_ = (b_ or {}).get("impl") or {}
-                if b_ and im_.get("trait") and not b_.get("parent"):
+                if b_ and im_.get("trait") and not b_.get("parent") and im_["trait"].split("::")[0] not in local_roots:
                     return "<%s as %s>::%s" % (im_["self_s"], im_["trait"], b_["name"])
                 if b_ and not b_.get("parent"):
-                    # an inherent or free function is named after its signature (stable under renaming / moving)
+                    # an inherent or free function, or a method of a crate-private trait, is named after its signature
+                    # (stable under renaming / moving / turning a function into a trait method)
                     def shape(t_):
                         trees = [x.split("::")[-1] for x in TREE.findall(t_)]
                         return "+".join(dict.fromkeys(trees)) if trees else "_"
